@@ -34,13 +34,13 @@ def confirm(src, mid):
     try:
         demo = open(os.path.join(src, "demo_test.go")).read()
         pkg_main = "package main" in demo.split("\n", 30)[0:30].__str__()
-        demo_path = os.path.join(wt, "ion", "zz_demo_test.go")
+        pkgdir = "cmd/ion-go" if demo.lstrip().split("\n")[0].strip() == "package main" or "\npackage main" in demo[:2000] else "ion"
+        demo_path = os.path.join(wt, pkgdir, "zz_demo_test.go")
         run_demo = "go test -vet=off -count=1 -run 'TestDemo|Test.*Demo|TestSeeded' ./ion"
         meta = json.load(open(os.path.join(src, "meta.json")))
         # 1. demo passes on the clean tree
         shutil.copy(os.path.join(src, "demo_test.go"), demo_path)
-        rc0, o0 = sh("go test -vet=off -count=1 -run . ./ion -run 'Demo|Seeded' 2>&1 | tail -15", cwd=wt)
-        rc0, o0 = sh("go test -vet=off -count=1 -run 'Demo|Seeded' ./ion", cwd=wt)
+        rc0, o0 = sh("go test -vet=off -count=1 -run 'Demo|Seeded' ./%s" % pkgdir, cwd=wt)
         ran.append("clean tree: demo rc=%d" % rc0)
         if rc0 != 0 or "no tests to run" in o0:
             ok = False
@@ -60,7 +60,7 @@ def confirm(src, mid):
             ok = False
         # 3. demo fails with the patch
         shutil.copy(os.path.join(src, "demo_test.go"), demo_path)
-        rc4, o4 = sh("go test -vet=off -count=1 -run 'Demo|Seeded' ./ion", cwd=wt)
+        rc4, o4 = sh("go test -vet=off -count=1 -run 'Demo|Seeded' ./%s" % pkgdir, cwd=wt)
         ran.append("patched tree: demo rc=%d" % rc4)
         if rc4 == 0:
             ok = False
@@ -71,7 +71,7 @@ def confirm(src, mid):
             shutil.copy(os.path.join(src, "patch.diff"), dst)
             shutil.copy(os.path.join(src, "demo_test.go"), dst)
             meta["confirmed"] = ran
-            meta["demo_cmd"] = "cp demo_test.go <tree>/ion/zz_demo_test.go && cd <tree> && go test -vet=off -count=1 -run 'Demo|Seeded' ./ion"
+            meta["demo_cmd"] = "cp demo_test.go <tree>/%s/zz_demo_test.go && cd <tree> && go test -vet=off -count=1 -run 'Demo|Seeded' ./%s" % (pkgdir, pkgdir)
             json.dump(meta, open(os.path.join(dst, "meta.json"), "w"), indent=1)
     finally:
         sh("git -C /repo worktree remove --force %s" % wt)
